@@ -214,8 +214,9 @@ SO3Base<_Derived>::log(OptJacobianRef J_t_m) const
   }
   else
   {
-    // small-angle approximation
-    log_coeff = Scalar(2.0);
+    // small-angle approximation,
+    // w<0 denotes the same rotation as -q (see the note above)
+    log_coeff = (w() < Scalar(0.0)) ? Scalar(-2.0) : Scalar(2.0);
   }
 
   tan = Tangent(coeffs().template head<3>() * log_coeff);
